@@ -328,8 +328,11 @@ _TEXTS = {
             "flag; the distance/angle kernels depend on coordinates through differences (C05/C07 contracts). Bounded only: rigid-motion and lattice-shift invariance of every "
             "observable in float32, neighbour-list voxel hashing (known findings)."),
     "C10": (_T_C, "Deductive: the brute-force kernel _compute_neighbors on 2x1 / 1x2 query/haystack lists with symbolic indices, coordinates, box and cutoff: per-pair "
-            "lattice congruence and wrap bounds, result = haystack atoms with some query atom (not itself) within the cutoff, in order. Bounded only: longer lists, "
-            "compute_neighborlist (voxel search: known findings), float32."),
+            "lattice congruence and wrap bounds, result = haystack atoms with some query atom (not itself) within the cutoff, in order. compute_neighborlist's Voxels "
+            "structure WITHOUT a cell, against an abstract view of the bins (symbolic grid, atom count, coordinates, cutoff; every loop cut by an inductive invariant): the two "
+            "binary searches (bracketing + termination), constructor/getVoxelIndex/insert (closed-voxel membership), and getNeighbors: an arbitrary atom j<i within the cutoff IS "
+            "appended (voxel ranges, x window, bracketing, scan, distance test) and every appended atom has a smaller index and lies within the cutoff. Bounded only: longer lists, "
+            "compute_neighborlist with a periodic cell (voxel search: known findings), its driver loop (std::sort, OpenMP loop, symmetric completion), float32."),
     "C11": (_T_PY, "Deductive: the Python side of make_molecules_whole / image_molecules on the real Trajectory and Topology classes: the bond table handed to the kernel is "
             "the CURRENT topology's bonds (also after in-place edits of the same Topology), the kernel works on the result's coordinates, cells/times untouched, inplace=False "
             "leaves the original untouched. The Cython kernels make_whole, whole_molecules and wrap_mols are verified on Python text extracted MECHANICALLY from "
